@@ -139,6 +139,16 @@ static bool traced_load(const std::string& name, cctz::time_zone* tz) {
   return ok;
 }
 
+// A name with the shape of a fixed-offset name that spells more than 24 hours: not an internal name, so it is looked
+// up like any other (statement of C15/C20). Unique per call within this process, so that each is a first load.
+static std::string over_range_name() {
+  static std::atomic<long> n{0};
+  long v = n.fetch_add(1);
+  char b[64];
+  snprintf(b, sizeof b, "Fixed/UTC%c%02ld:%02ld:%02ld", (v & 1) ? '-' : '+', 25 + (v / 2) % 75, (v / 150) % 100, (v / 15000) % 100);
+  return b;
+}
+
 // ------------------------------------------------------------------ stress mode
 // relaxed-atomic race-window counters (no synchronisation added between the loader's sections)
 static std::atomic<int> g_in_miss[64];
@@ -184,6 +194,14 @@ static void stress_round(sup::Ctx& ctx, uint64_t seed, long round, int k, const 
   zsrc::put(pre + "garbage", "TZif2 this is not zone data");
   names.push_back({pre + "garbage", -1, false, 0});
   for (long off : {3600L, -12345L, 86400L, -86400L, 86399L, -1L}) names.push_back({fixed_name(off), -2, true, off});
+  {
+    // fixed-offset-shaped names beyond 24 hours go to the data source like any other name
+    std::string o1 = over_range_name(), o2 = over_range_name(), o3 = "Fixed/UTC+24:00:01";
+    zsrc::put(o1, g_z[static_cast<size_t>(round) % g_z.size()].bytes);
+    names.push_back({o1, static_cast<int>(static_cast<size_t>(round) % g_z.size()), true, 0});
+    names.push_back({o2, -1, false, 0});
+    names.push_back({o3, -1, false, 0});
+  }
   names.push_back({"UTC", -2, true, 0});
   names.push_back({"UTC0", -2, true, 0});
   // zones shared by all threads (their hints are hammered)
@@ -324,6 +342,7 @@ static bool g_has_load_lock = false;  // learnt from hook points 3/4, kept acros
 
 static void sched_park(int point) {
   Sched& s = *g_s;
+  if (getenv("VERIF_SCHED_DEBUG")) fprintf(stderr, "park thread=%d point=%d\n", t_idx, point);
   std::unique_lock<std::mutex> l(s.mu);
   s.t[t_idx].state = ST_PARKED;
   s.t[t_idx].point = point;
@@ -351,8 +370,9 @@ static void sched_gate(const std::string&) {
 
 struct Program {
   std::vector<std::vector<int>> loads;  // per thread: indices into name table
-  std::vector<std::pair<std::string, int>> names;  // (suffix, zone index | -1 invalid | -2 fixed)
+  std::vector<std::pair<std::string, int>> names;  // (suffix, zone index | -1 invalid | -2 fixed | -3/-4 over-range fixed shape with/without data)
   const char* label;
+  bool optimistic = false;  // do not trust the hooks' picture of the load lock: try to run a thread parked before it anyway
 };
 
 struct SchedResult {
@@ -373,7 +393,10 @@ static SchedResult run_schedule(sup::Ctx& ctx, const Program& P, long serial, co
   std::vector<std::string> full;
   for (auto& n : P.names) {
     if (n.second == -2) full.push_back(n.first);
-    else {
+    else if (n.second == -3 || n.second == -4) {
+      full.push_back(over_range_name());
+      if (n.second == -3) zsrc::put(full.back(), g_z[0].bytes);
+    } else {
       full.push_back(pre + n.first);
       if (n.second >= 0) zsrc::put(pre + n.first, g_z[static_cast<size_t>(n.second) % g_z.size()].bytes);
     }
@@ -425,7 +448,7 @@ static SchedResult run_schedule(sup::Ctx& ctx, const Program& P, long serial, co
         // a thread parked just before the load lock cannot make progress while another thread holds it
         bool held_by_other = false;
         for (int j = 0; j < S.k; ++j) held_by_other = held_by_other || (j != i && S.t[j].holds_load_lock);
-        if (g_has_load_lock && held_by_other && (S.t[i].point == 2 || S.t[i].point == 3)) continue;
+        if (!P.optimistic && g_has_load_lock && held_by_other && (S.t[i].point == 2 || S.t[i].point == 3)) continue;
         en.push_back(i);
       }
       if (all_done) break;
@@ -457,7 +480,7 @@ static SchedResult run_schedule(sup::Ctx& ctx, const Program& P, long serial, co
       S.running = pick;
       S.cv.notify_all();
       // wait until that thread parks again or finishes; if it blocks on a lock we do not model, fall back
-      bool back = S.cv.wait_for(l, std::chrono::milliseconds(g_has_load_lock ? 5000 : 300), [&] { return S.running == -1; });
+      bool back = S.cv.wait_for(l, std::chrono::milliseconds(P.optimistic ? 150 : g_has_load_lock ? 5000 : 300), [&] { return S.running == -1; });
       if (!back) {
         ++R.fallback_blocked;
         S.running = -1;  // treat as blocked: others may be scheduled; it parks itself when it gets through
@@ -476,7 +499,8 @@ static SchedResult run_schedule(sup::Ctx& ctx, const Program& P, long serial, co
     for (size_t j = 0; j < P.loads[ti].size(); ++j) {
       int ni = P.loads[ti][j];
       int zi = P.names[ni].second;
-      bool expect_ok = zi != -1;
+      bool expect_ok = zi != -1 && zi != -4;
+      if (zi == -3) zi = 0;
       const cctz::time_zone& tz = outs[ti].tz[j];
       if (outs[ti].ok[j] != expect_ok)
         ctx.viol("C13", "load-result-differs:sched", "program=" + std::string(P.label) + " schedule=" + R.choices + " thread=" + std::to_string(ti) + " name=" + full[ni]);
@@ -517,7 +541,7 @@ static SchedResult run_schedule(sup::Ctx& ctx, const Program& P, long serial, co
 static std::vector<Program> programs(int kmax) {
   std::vector<Program> ps;
   // names: A, B valid; A2 alias of A's bytes; bad invalid; fixed
-  std::vector<std::pair<std::string, int>> names = {{"A", 0}, {"B", 1}, {"A2", 0}, {"bad", -1}, {"Fixed/UTC-24:00:00", -2}};
+  std::vector<std::pair<std::string, int>> names = {{"A", 0}, {"B", 1}, {"A2", 0}, {"bad", -1}, {"Fixed/UTC-24:00:00", -2}, {"<over>", -3}, {"<overbad>", -4}};
   ps.push_back({{{0}, {0}}, names, "2:A|A"});
   ps.push_back({{{0}, {1}}, names, "2:A|B"});
   ps.push_back({{{0, 0}, {0}}, names, "2:AA|A"});
@@ -525,6 +549,12 @@ static std::vector<Program> programs(int kmax) {
   ps.push_back({{{0}, {2}}, names, "2:A|A2"});
   ps.push_back({{{4}, {0}}, names, "2:fixed|A"});
   ps.push_back({{{0, 1}, {1, 0}}, names, "2:AB|BA"});
+  ps.push_back({{{5}, {5}}, names, "2:over|over"});
+  ps.push_back({{{6}, {6}}, names, "2:overbad|overbad"});
+  ps.push_back({{{0}, {0}}, names, "opt2:A|A", true});
+  ps.push_back({{{0}, {1}}, names, "opt2:A|B", true});
+  ps.push_back({{{5}, {5}}, names, "opt2:over|over", true});
+  ps.push_back({{{5}, {0}}, names, "opt2:over|A", true});
   if (kmax >= 3) {
     ps.push_back({{{0}, {0}, {0}}, names, "3:A|A|A"});
     ps.push_back({{{0}, {0}, {1}}, names, "3:A|A|B"});
@@ -679,6 +709,57 @@ int main(int argc, char** argv) {
       }
     });
   }
+  if (mode == "overtake") {
+    // A waiter that has seen its cache miss is held just before the load lock while another thread performs N
+    // first-time loads, the last of them for the waiter's own name; then the waiter goes on. Whatever N is, the
+    // waiter must find the name loaded (no second factory call). N covers the wrap-around of narrow counters.
+    std::vector<long> ns = {1, 2, 3, 15, 16, 17, 127, 128, 129, 255, 256, 257, 511, 512, 513, 1024};
+    if (a.get("tier", "quick") == "thorough")
+      for (long v : {4095L, 4096L, 32767L, 32768L, 65535L, 65536L, 65537L, 131072L}) ns.push_back(v);
+    return sup::supervise(static_cast<long>(ns.size()) * 2, opt, [&](long c, sup::Ctx& ctx) {
+      static std::vector<std::vector<std::string>> ref;
+      if (ref.empty()) {
+        for (size_t zi = 0; zi < g_z.size(); ++zi) {
+          std::string n = "V/D/ref/z" + std::to_string(zi);
+          zsrc::put(n, g_z[zi].bytes);
+          cctz::time_zone tz;
+          cctz::load_time_zone(n, &tz);
+          std::vector<std::string> v;
+          for (int q = 0; q < kQueries; ++q) v.push_back(query(tz, g_z[zi], q));
+          ref.push_back(v);
+        }
+        (void)cctz::fixed_time_zone(cctz::seconds(7));  // the loader threads' placeholder zone: cached before any schedule
+        cctz_verif_load_hook = sched_hook;
+        zsrc::st().gate = sched_gate;
+      }
+      long N = ns[static_cast<size_t>(c / 2)];
+      bool x_first = (c % 2) == 1;  // the waiter's name is loaded first or last among the N
+      ctx.set_case("class=overtake op=waiter-overtaken-by-N-loads N=%ld waiter-name-%s", N, x_first ? "first" : "last");
+      Program P;
+      P.label = "overtake";
+      P.names.push_back({"X", 0});
+      for (long i = 1; i < N; ++i) P.names.push_back({"n" + std::to_string(i), static_cast<int>(i % static_cast<long>(g_z.size()))});
+      std::vector<int> other;
+      if (x_first) other.push_back(0);
+      for (long i = 1; i < N; ++i) other.push_back(static_cast<int>(i));
+      if (!x_first) other.push_back(0);
+      P.loads = {{0}, other};
+      std::vector<int> prefix = {0};
+      for (long i = 0; i < N + 1; ++i) prefix.push_back(1);
+      prefix.push_back(0);
+      SchedResult R = run_schedule(ctx, P, 900000000L + c, prefix, nullptr, 1u << 3, ref);
+      ctx.stat("C20.overtake_cases");
+      ctx.stat("C20.overtake_loads", static_cast<uint64_t>(N));
+      ctx.stat("C13.distinct_nontrivial");
+      ctx.stat("C20.distinct_nontrivial");
+      // the intended order was realised iff the schedule is 0 1...1 0
+      bool as_planned = R.choices.size() >= static_cast<size_t>(N) + 2 && R.choices[0] == '0' && R.choices.back() == '0' &&
+                        R.choices.find('0', 1) == R.choices.size() - 1;
+      if (as_planned) ctx.stat("C20.overtake_cases_realised_as_planned");
+      if (c == 0) ctx.sample("C20", "overtake N=1: schedule " + R.choices);
+      if (!as_planned) ctx.note("overtake N=" + std::to_string(N) + (x_first ? " first" : " last") + " realised as " + R.choices.substr(0, 60) + "... (" + std::to_string(R.choices.size()) + " steps, " + std::to_string(R.fallback_blocked) + " timeouts)");
+    });
+  }
   // schedule enumeration
   int kmax = static_cast<int>(a.getl("kmax", 3));
   std::vector<Program> ps = programs(kmax);
@@ -693,6 +774,7 @@ int main(int argc, char** argv) {
     int k = static_cast<int>(ps[pi].loads.size());
     unsigned parkset = (1u << 2) | (1u << 8) | (1u << 5);
     if (k <= 2) parkset |= (1u << 0) | (1u << 3);
+    if (ps[pi].optimistic) parkset = (1u << 3) | (1u << 8);
     if (k >= 4) parkset = (1u << 2) | (1u << 8);
     for (int c0 = 0; c0 < k; ++c0)
       for (int c1 = 0; c1 < k; ++c1) cfgs.push_back({pi, parkset, c0, c1});
@@ -710,6 +792,7 @@ int main(int argc, char** argv) {
         for (int q = 0; q < kQueries; ++q) v.push_back(query(tz, g_z[zi], q));
         ref.push_back(v);
       }
+      (void)cctz::fixed_time_zone(cctz::seconds(7));  // the loader threads' placeholder zone: cached before any schedule
       cctz_verif_load_hook = sched_hook;
       zsrc::st().gate = sched_gate;
     }
